@@ -17,4 +17,10 @@ func C17(run *vf.Run) {
 	two := vf.Pick(run, 0, 1)
 	eng.ReplayFamily(run, eng.FamilyOpts{Name: "dirs", CfgText: engineCfg("dirs", 0, two, "{1, 2}", `{"On"}`),
 		Proj: eng.ProjOpts{}, Timeout: vf.Pick(run, 10*time.Minute, 90*time.Minute), Workers: 3, Slices: 6, Runs: 2, SameWAF: true})
+	if run.NumViolations() > 0 || len(run.InconclusiveList()) > 0 {
+		return
+	}
+	// code -> spec over arbitrary rule sets: recorded executions of the repository's test profiles, the Core Rule Set and
+	// generated rule sets must be behaviours of Flow.tla (Flow_Trace.tla)
+	FlowTraceStage(run, "crsx", "profiles", "generated")
 }
